@@ -22,6 +22,7 @@ import (
 
 	"github.com/hugelgupf/p9/linux"
 	"github.com/hugelgupf/p9/p9"
+	"verif/rt/vrt"
 	"verif/rt/vsched"
 )
 
@@ -809,6 +810,7 @@ func (h *Handle) ReadAt(p []byte, offset int64) (int, error) {
 	}
 	n := h.Ino // I/O acts on the object like an fd
 	fs.access(n, false, "read")
+	vrt.ArrW(p, "buffer bytes", "memfs.ReadAt")
 	if a != nil && a.Override != nil && a.Override.Data != nil {
 		k := copy(p, a.Override.Data)
 		c.Result = []interface{}{k}
@@ -842,6 +844,7 @@ func (h *Handle) WriteAt(p []byte, offset int64) (int, error) {
 	}
 	n := h.Ino
 	fs.access(n, true, "write")
+	vrt.ArrR(p, "buffer bytes", "memfs.WriteAt")
 	if n.IsDir() {
 		c.Err = linux.EISDIR
 		return 0, linux.EISDIR
